@@ -2,6 +2,7 @@ import DaskModel.Lemmas.ArrayReduce
 import DaskModel.Lemmas.BlockScan
 import DaskModel.Lemmas.BlellochTable
 import DaskModel.Lemmas.TopK
+import DaskModel.Lemmas.GridReduce
 import Mathlib.Tactic.SplitIfs
 /-!
 # C22 — array reductions and scans equal NumPy for every chunking and `split_every`
@@ -471,6 +472,51 @@ example : (redTopk 2).run1 2 2 [[4, 2], [9], [7, 1]] = some [[9, 7]] := by
   rw [topk_eq_sort_take 2 2 2 (by decide) _ (by simp) (by decide)]; decide
 example : (redTopk (-2)).run1 2 2 [[4, 2], [9], [7, 1]] = some [[1, 2]] := by
   rw [topk_eq_sort_take (-2) 2 2 (by decide) _ (by simp) (by decide)]; decide
+
+/-! ## n-d: reductions over several axes at once -/
+
+theorem isum_comm : IsCommMonoid (fun a b : Int => a + b) 0 := ⟨isum_monoid, Int.add_comm⟩
+theorem iprod_comm : IsCommMonoid (fun a b : Int => a * b) 1 := ⟨iprod_monoid, Int.mul_comm⟩
+theorem bor_comm : IsCommMonoid (fun a b : Bool => a || b) false := ⟨bor_monoid, Bool.or_comm⟩
+theorem band_comm : IsCommMonoid (fun a b : Bool => a && b) true := ⟨band_monoid, Bool.and_comm⟩
+
+/-- **sum over several axes** (`x.sum(axis=(…))`, `x.sum()` on an n-d array): for every block grid `nb`, every
+    per-axis `split_every` `ks` and every depth with `n_i ≤ k_i ^ depth` on each axis, the n-d tree returns a single
+    block with NumPy's sum of all the data — in particular independent of `split_every`. -/
+theorem sum_nd_eq_numpy (d : Nat) (ks nb : List Nat) (blocks : List (List Int)) (h : AxesOk (d + 1) ks nb)
+    (hl : blocks.length = (cartesian (nb.map List.range)).length) :
+    redSum.run nb (ks.map some) false (d + 1) blocks = some [([], isum blocks.flatten)] := by
+  unfold Red.run
+  show ((blocks.mapM fun b => some (isum b)).bind _) = _
+  rw [mapM_some]
+  simp only [Option.bind_some]
+  have := gridReduce_eq_fold isum_comm d ks nb (blocks.map isum) h (by simpa using hl)
+  rw [show redSum.combine = (fun xs : List Int => xs.foldr (· + ·) 0) from rfl,
+    show redSum.aggregate = (fun xs : List Int => xs.foldr (· + ·) 0) from rfl, this]
+  exact congrArg (fun v => some [([], v)]) (isum_flatten blocks)
+
+theorem prod_nd_eq_numpy (d : Nat) (ks nb : List Nat) (blocks : List (List Int)) (h : AxesOk (d + 1) ks nb)
+    (hl : blocks.length = (cartesian (nb.map List.range)).length) :
+    redProd.run nb (ks.map some) false (d + 1) blocks = some [([], iprod blocks.flatten)] := by
+  unfold Red.run
+  show ((blocks.mapM fun b => some (iprod b)).bind _) = _
+  rw [mapM_some]
+  simp only [Option.bind_some]
+  have := gridReduce_eq_fold iprod_comm d ks nb (blocks.map iprod) h (by simpa using hl)
+  rw [show redProd.combine = (fun xs : List Int => xs.foldr (· * ·) 1) from rfl,
+    show redProd.aggregate = (fun xs : List Int => xs.foldr (· * ·) 1) from rfl, this]
+  exact congrArg (fun v => some [([], v)]) (iprod_flatten blocks)
+
+/-- generic n-d statement for any reduction whose combine/aggregate is the fold of a commutative monoid -/
+theorem nd_tree_eq_fold {β : Type} {op : β → β → β} {e : β} (hM : IsCommMonoid op e) (d : Nat) (ks nb : List Nat)
+    (parts : List β) (h : AxesOk (d + 1) ks nb) (hl : parts.length = (cartesian (nb.map List.range)).length) :
+    gridReduce (fun xs => xs.foldr op e) (fun xs => xs.foldr op e) nb (ks.map some) false (d + 1) (mkGrid nb parts)
+      = some [([], parts.foldr op e)] :=
+  gridReduce_eq_fold hM d ks nb parts h hl
+
+/-- non-vacuity: a 3 × 2 grid of blocks, `split_every = (2, 2)`, two levels -/
+example : AxesOk 2 [2, 2] [3, 2] := by
+  unfold AxesOk; refine List.Forall₂.cons ⟨by decide, by decide, by decide⟩ (List.Forall₂.cons ⟨by decide, by decide, by decide⟩ List.Forall₂.nil)
 
 /-! ## K2: cumulative reductions -/
 section scans
